@@ -15,7 +15,8 @@ fix-up pass, which only fails when an index is out of range, is modelled by reco
 index that was read (`St.refBound`) and comparing it with the number of remembered objects at the end.
 
 Mirrors the code *with* `fixes/C16-01-havok-struct-member-count.patch` and
-`fixes/C16-02-havok-default-values.patch` applied (see `notes/C16.md`).
+`fixes/C16-02-havok-default-values.patch` applied (see `notes/C16.md`), on top of the C18 fixes of the same
+file (length guards for arrays and member counts, non-recursive vector defaults).
 -/
 namespace Physis.Havok
 
@@ -247,6 +248,9 @@ def readType (st : St) (b : Bytes) : Option (HType × St × Bytes) :=
         match readPackedInt b with
         | none => none
         | some (memberCount, b) =>
+          -- `member_count as i64 > self.reader.raw().len() as i64` is rejected (panic)
+          if (b.length : Int) < memberCount then none
+          else
           match (asIndex parent).bind (st.types[·]?) with
           | none => none
           | some p =>
@@ -330,9 +334,12 @@ def readMemberValue (fuel : Nat) (st : St) (m : Member) (b : Bytes) : Option (Va
     match readPackedInt b with
     | none => none
     | some (len, b) =>
+      -- `array_len < 0 || array_len as usize > self.reader.raw().len()` is rejected (panic)
       match asIndex len with
       | none => none
-      | some len => (readArray fuel st m len b).map fun (l, st, b) => (.arr l, st, b)
+      | some len =>
+        if b.length < len then none
+        else (readArray fuel st m len b).map fun (l, st, b) => (.arr l, st, b)
   else if m.ty == 1 then readByteV st b
   else if m.ty == 2 then readIntV st b
   else if m.ty == 3 then readRealV st b
